@@ -300,6 +300,11 @@ DEFECTS = {
     "bad-param-token": (lambda d: d["parameters"].__setitem__("tok", "50%"), "tok", 1),
     "bad-service-ref-arg": (lambda d: d["services"].__setitem__("d12", {"constructor": "NewA", "arguments": ["@"]}), "d12", 1),
     "bad-value-arg-in-decorator": (lambda d: d["decorators"].append({"tag": "t", "decorator": "Deco", "arguments": ["!value  "]}), "Deco", 1),
+    # a rule that compares services with each other, alone and while one of the services has a defect of its own
+    "duplicate-getter": (lambda d: (d["services"].__setitem__("d14a", {"constructor": "NewA", "getter": "GetDupA"}),
+                                    d["services"].__setitem__("d14b", {"constructor": "NewA", "getter": "GetDupA"})), "GetDupA", 1),
+    "duplicate-getter-beside-own-defect": (lambda d: (d["services"].__setitem__("d15a", {"constructor": "NewA", "getter": "GetDupB", "tags": ["x", "x"]}),
+                                                      d["services"].__setitem__("d15b", {"constructor": "NewA", "getter": "GetDupB", "type": "**T"})), "GetDupB", 1),
     # two independent violations on ONE key: both must be reported
     "param-bad-name-and-not-primitive": (lambda d: d["parameters"].__setitem__("two defects", [1, 2]), "two defects", 2),
     "service-bad-type-and-bad-value": (lambda d: d["services"].__setitem__("d10", {"type": "**T", "value": "a b"}), "d10", 2),
@@ -358,4 +363,20 @@ def multi_defects(v, pool, wd, rng, tier):
         v.disagree("todo-service-name-not-checked", {"doc": "todo"}, {"exit": rs["exit"], "errors": errs[:5]})
     if any('"t1"' in e for e in errs):
         v.disagree("todo-service-attributes-checked", {"doc": "todo"}, {"errors": errs[:5]})
-    return len(subsets) + 1
+    # the exemption covers the rules that compare services with each other too: todo placeholders repeating the getter of a live
+    # service (or of each other), carrying every other attribute defect the validators know, in an otherwise valid document: accepted
+    # (what cannot even be unmarshalled - a scope keyword, the shape of a call or tag - is rejected before `todo` is looked at)
+    doc = base_doc()
+    doc["services"]["live"] = {"constructor": "NewA", "getter": "GetDup", "type": "*T"}
+    doc["services"]["t2"] = {"todo": True, "getter": "GetDup"}
+    doc["services"]["t3"] = {"todo": True, "getter": "GetDup", "must_getter": True, "type": "**T", "tags": ["x", "x"],
+                             "constructor": "not a func", "value": "a b", "arguments": [[1]], "fields": {"a-b": [1]}, "calls": [["Set X", []]]}
+    doc["services"]["t4"] = {"todo": True, "getter": "MustGetParam"}
+    d = os.path.join(wd, "todo-ok")
+    os.makedirs(d)
+    with open(os.path.join(d, "in.yaml"), "w") as f:
+        f.write(concretise.emit(doc, rng) + "\n")
+    rs = pool.run_all([{"id": 0, "dir": d, "args": ["-i", "in.yaml", "-o", "out.go"], "version": "dev-main", "buildinfo": "verif", "out": "out.go"}])[0]
+    if rs["exit"] != 0:
+        v.disagree("todo-service-attributes-checked", {"doc": "todo-ok"}, {"exit": rs["exit"], "errors": core.Report(rs["stdout"]).errors[:5]})
+    return len(subsets) + 2
